@@ -72,6 +72,15 @@ COMBOS = [
      "on top of the needs_drop shortcut in the slice builder's Drop: the guard asks needs_drop::<H>() only, so written "
      "elements with destructors are leaked (never destructed) whenever the header type is plain data",
      [("src/slice.rs", "            if mem::needs_drop::<SliceWithHeader<H, E>>() {\n", "            if mem::needs_drop::<H>() {\n")]),
+    ("C13-from-static-via-assume-loses-bound", "R15-04-barrier-write-casts", "C13", "R13.1-assume-callers",
+     "on top of from_static forwarding to Write::assume: the 'static bound is dropped, so safe code gets a &Write on any "
+     "reference without a barrier",
+     [("src/barrier.rs", "    where\n        T: 'static,\n    {\n        // SAFETY: a `'static` value", "    {\n        // SAFETY: a `'static` value")]),
+    ("C19-const-guard-forgets-alignment", "R15-07-zst-cache-constify", "C19", "zst-guard",
+     "on top of the guard written as an inline constant: fits::<T>() looks at the size only, so an over-aligned "
+     "zero-sized type is handed the (less aligned) cached pointer",
+     [("src/zst_cache.rs", "        size_of::<T>() == 0 && align_of::<T>() <= MAX_ALIGN\n", "        size_of::<T>() == 0\n"),
+      ("src/zst_cache.rs", "            debug_assert!(Gc::as_ptr(self.cached_ptr).align_offset(align_of::<T>()) == 0);\n", "")]),
     ("C07-white-bit-test-misses-white-weak", "R11-04-white-bit-test", "C07", "resurrect-table",
      "on top of the single-bit whiteness test: is_white compares both colour bits with zero, so a WhiteWeak object "
      "is not recognised as dead (resurrect leaves it dead, the barrier does not re-gray for it)",
